@@ -112,7 +112,7 @@ Args ==
   \* locality: two calls in three go to the slot used last, so that sequences of calls build up state on one object
   /\ UNCHANGED <<nd, rk>>
   /\ \E s0 \in {IF Recipe THEN (IF Len(prog) = 1 \/ AfterCopy \/ (rk = "copy" /\ cur \in {"H79_widening", "assign", "copy_from", "swap"}) THEN 2 ELSE 1) ELSE IF AliveS = {} THEN focus ELSE IF Alive(focus) /\ RE(1..3) <= 2 THEN focus ELSE RE(AliveS)} : focus' = s0 /\
-     \E ill \in {Ill(Len(prog))} :
+     \E ill \in {IF Recipe /\ Len(prog) < 2 + nd THEN FALSE ELSE Ill(Len(prog))} :
      \/ /\ cur \in CtorOps
         /\ \E s \in {IF Recipe \/ RE(1..2) = 1 THEN s0 ELSE RE(Slots)} :
            \E n \in {IF Recipe /\ Len(prog) = 1 THEN dim[1] ELSE IF Recipe THEN RE(1..MaxDim) ELSE RE(0..MaxDim)} :
